@@ -159,11 +159,13 @@ fn oracle(v: Var, ps: usize, edge_mask: u64, eps: &[(u64, u64)], nonces: &[u64])
 	if nonces.windows(2).any(|w| w[0] >= w[1]) {
 		return false;
 	}
-	let mut verts: HashMap<u64, Vec<usize>> = HashMap::new();
+	// group the 2l edge ends by vertex (sort by vertex key): every vertex must have exactly two
+	let mut ends: Vec<(u64, usize)> = Vec::with_capacity(2 * l);
 	for (e, (a, b)) in eps.iter().enumerate() {
-		verts.entry(v.vkey(0, *a)).or_default().push(2 * e);
-		verts.entry(v.vkey(1, *b)).or_default().push(2 * e + 1);
+		ends.push((v.vkey(0, *a), 2 * e));
+		ends.push((v.vkey(1, *b), 2 * e + 1));
 	}
+	ends.sort_unstable();
 	let node = |s: usize| if s % 2 == 0 { eps[s / 2].0 } else { eps[s / 2].1 };
 	let mut uf: Vec<usize> = (0..l).collect();
 	fn find(uf: &mut Vec<usize>, x: usize) -> usize {
@@ -174,11 +176,15 @@ fn oracle(v: Var, ps: usize, edge_mask: u64, eps: &[(u64, u64)], nonces: &[u64])
 		uf[x] = r;
 		r
 	}
-	for (_, slots) in verts.iter() {
-		if slots.len() != 2 {
-			return false;
+	let mut i = 0;
+	while i < ends.len() {
+		if i + 1 >= ends.len() || ends[i + 1].0 != ends[i].0 {
+			return false; // a vertex with one edge end
 		}
-		let (a, b) = (slots[0], slots[1]);
+		if i + 2 < ends.len() && ends[i + 2].0 == ends[i].0 {
+			return false; // three or more
+		}
+		let (a, b) = (ends[i].1, ends[i + 1].1);
 		let good = match v {
 			Var::Cuckatoo => node(a) != node(b),
 			Var::Cuckarood => (nonces[a / 2] & 1) != (nonces[b / 2] & 1),
@@ -190,6 +196,7 @@ fn oracle(v: Var, ps: usize, edge_mask: u64, eps: &[(u64, u64)], nonces: &[u64])
 		}
 		let (ra, rb) = (find(&mut uf, a / 2), find(&mut uf, b / 2));
 		uf[ra] = rb;
+		i += 2;
 	}
 	if v == Var::Cuckarood {
 		let d0 = nonces.iter().filter(|n| *n & 1 == 0).count();
